@@ -326,11 +326,24 @@ def w_history(ctx, rng, i):
         if r < 0.3:
             # wrong sizes are refused and change nothing
             bad = ms.PointCloud(rng.normal(size=(len(src) + 1, d))) if rng.random() < 0.5 else ms.PointCloud(rng.normal(size=(len(src), 5 - d)))
+            if (len(src) * d) % (5 - d) == 0 and rng.random() < 0.4:
+                # the same amount of numbers, arranged as another number of points of the other dimensionality
+                bad = ms.PointCloud(rng.normal(size=((len(src) * d) // (5 - d), 5 - d)))
             try:
                 who.set_target(bad)
             except Exception:
                 pass
             shape.append("bad")
+            continue
+        if r < 0.34:
+            # a creeping target: many tiny steps (the last iterations of a fit); every step counts
+            cur = who.target.points.astype(float)
+            step_v = rng.normal(size=cur.shape)
+            for _k in range(int(rng.integers(10, 40))):
+                cur = cur + 4e-6 * np.maximum(np.abs(cur), 1.0) * step_v
+                who.set_target(ms.PointCloud(cur.copy()))
+            shape.append("creep")
+            accepted += 1
             continue
         if r < 0.4 and not warp:
             # parameter update in between (the alignment re-syncs its target), then retarget again
